@@ -3,36 +3,59 @@
 
    Sources: OpenType 'fvar' (user-space axis records, coordinate normalisation), 'avar'
    (segment maps), "Font Variations Common Table Formats" (regions, scalars, tuple / item
-   variation stores), 'GSUB'/'GPOS' FeatureVariations (condition sets, first matching record
-   wins) -- all through modules VarSem / Tent (exact rationals, module Rat).
+   variation stores, F2DOT14 normalised coordinates), 'GSUB'/'GPOS' FeatureVariations
+   (condition sets, first matching record wins) -- through modules VarSem / Tent (exact
+   rationals, module Rat).
 
    ABSTRACT VARIABLE FONT
      font == [axes   |-> Seq(<<min, default, max>>)      user-space axis records ('fvar')
               avar   |-> Seq(map)                         one segment map per axis, <<>> = identity;
                                                           map == Seq(<<from, to>>), increasing `from`
-              items  |-> Seq([base |-> Rat,               default value of the item (a glyph point
-                              vars |-> Seq(<<region, delta>>)])   coordinate, an advance, an MVAR metric,
-                                                          a GPOS value ...) and its delta sets
+              bases  |-> Seq(Rat)                         default value of every ITEM (a glyph point
+                                                          coordinate, an advance, an MVAR metric, a cvt
+                                                          value, a GPOS value, a CFF2 operand ...)
+              vars   |-> Seq(<<region, Seq(Rat)>>)        delta sets: a region and one delta per item
+                                                          (a TupleVariation; a column of a VarData)
               fvs    |-> Seq([box |-> Seq(<<lo, hi>>), sub |-> Nat])   feature variation records:
                                                           condition box (normalised, one entry per axis,
                                                           <<>> = no condition on that axis) -> substitution id
               defsub |-> Nat]                             substitution id when no record matches
-   A region is dense (one tent per axis, module VarSem).  The value of an item at a user-space
-   location is  base + sum_k RegionScalar(region_k, Normalise(loc)) * delta_k.
+   A region is dense (one tent per axis, module VarSem).  The value of item i at a user-space
+   location is  bases[i] + sum_k RegionScalar(region_k, Normalise(loc)) * deltas_k[i].
 
    AXIS LIMITS: one <<lo, default, hi>> user-space triple per axis (an unrestricted axis
    repeats its own record; lo = hi pins the axis).
 
    The CONTRACT of Instantiate(font, lims) = font2 is stated declaratively (Preserved,
    AxesCorrect, Static, FeatureVars) and is the conformance oracle for the real instancer.
-   The OPERATIONAL part transcribes what the instancer does (per-axis tent rebasing from
-   module Tent, delta scaling, merging of equal regions, default-delta extraction, rounding,
-   avar renormalisation, condition-range renormalisation); MC_Instancer checks it against
-   the contract on whole lattices and exports its cases to drive the real code.            *)
+   The OPERATIONAL part transcribes what the instancer does (AxisLimits.normalize, per-axis tent
+   rebasing from module Tent, delta scaling, merging of equal regions, default-delta
+   extraction, rounding, avar renormalisation, condition-range renormalisation); MC_Instancer
+   checks it against the contract on whole lattices and exports its cases to drive the real
+   code.
+
+   NAMED DEVIATIONS of the code from the ideal (explicit, so that they are neither false
+   alarms nor licences for anything else):
+     D-EPS   solver.py nudges a tent by EPSILON = 2^-14 when a peak would fall on the new
+             default (module Tent; only zero-scalar solutions are touched).
+     D-F14   normalised coordinates are stored as F2DOT14: limits, region coordinates, avar
+             knots and condition ranges of a SAVED instance are the ideal ones rounded to
+             2^-14.  Handled in the observational part (CoordSlack), never in the exact part.
+     D-IUP   with optimize=True the instancer re-runs IUP optimisation with tolerance 1/2 on
+             the rounded deltas of 'gvar' (the item's `opt` weight).
+     D-FV1   instancer/featureVars.py: a feature-variation record whose conditions all lie
+             on pinned axes and are satisfied (or that has no condition) applies everywhere
+             in the new space, but the code neither stops at it nor suppresses the catch-all
+             record.  FvLoop transcribes the code; FvDeviation says when D-FV1 can fire; the
+             contract FeatureVars is NOT weakened: a case where it fails is reported
+             (clause "FeatureVars:applied-record-without-remaining-conditions").           *)
 EXTENDS Tent, FiniteSets
 
 (* ---- small helpers -------------------------------------------------------------------- *)
 IFloorDiv(a, b) == IF a >= 0 THEN a \div b ELSE -((-(a + 1)) \div b) - 1         \* b > 0
+ICeilDiv(a, b) == -IFloorDiv(-a, b)                                              \* b > 0
+IMax(a, b) == IF a >= b THEN a ELSE b
+IMin(a, b) == IF a <= b THEN a ELSE b
 (* OpenType rounding floor(x + 1/2) of a rational, as an integer; RNaN -> poison marker *)
 RRoundInt(r) == IFloorDiv(2 * r[1] + r[2], 2 * r[2])
 RRoundFits(r) == ROk(r) /\ MulFits(2, r[1]) /\ AddFits(2 * r[1], r[2]) /\ MulFits(2, r[2])
@@ -47,8 +70,16 @@ Idx(n) == TLCEval([i \in 1..n |-> i])
 NormCoord(ax, map, u) == PiecewiseLinearMap(map, NormalizeValue(u, ax))
 NormLoc(font, uloc) ==
   TLCEval([a \in 1..Len(font.axes) |-> NormCoord(font.axes[a], font.avar[a], uloc[a])])
-EvalItemN(item, nloc) == RAdd(item.base, EvalDeltas(item.vars, nloc))       \* at a normalised location
-EvalItem(font, i, uloc) == EvalItemN(font.items[i], NormLoc(font, uloc))
+Scalars(vars, nloc) == TLCEval([k \in 1..Len(vars) |-> RegionScalar(vars[k][1], nloc)])
+RECURSIVE ItemSumFrom(_, _, _, _, _)
+ItemSumFrom(vars, sc, i, k, acc) ==
+  IF k > Len(vars) THEN acc
+  ELSE LET a == IF RIsZero(sc[k]) \/ RIsZero(vars[k][2][i]) THEN acc ELSE RAdd(acc, RMul(sc[k], vars[k][2][i]))
+       IN ItemSumFrom(vars, sc, i, k + 1, a)
+(* all item values at a normalised location, given the region scalars there *)
+ValuesSc(font, sc) == TLCEval([i \in 1..Len(font.bases) |-> ItemSumFrom(font.vars, sc, i, 1, font.bases[i])])
+ValuesN(font, nloc) == ValuesSc(font, Scalars(font.vars, nloc))
+Values(font, uloc) == ValuesN(font, NormLoc(font, uloc))
 
 InBox(box, nloc) == \A a \in 1..Len(box) : Len(box[a]) = 0 \/ (RLe(box[a][1], nloc[a]) /\ RLe(nloc[a], box[a][2]))
 (* FeatureVariations: the first record whose condition set is satisfied wins *)
@@ -79,13 +110,11 @@ InNewSpace(lims, uloc) ==
         |value'(loc) - value(loc)|  <=  1/2 * [base rounded]  +  sum_k scalar_k(loc) / 2     (tight)
                                     <=  1/2 * ([base rounded] + #{k : scalar_k(loc) # 0})    (count)
    "1/2 per rounded stored quantity contributing at that location".                              *)
-RECURSIVE ScalarSumFrom(_, _, _, _)
-ScalarSumFrom(vars, nloc, k, acc) ==
-  IF k > Len(vars) THEN acc
-  ELSE LET a == RAdd(acc, RegionScalar(vars[k][1], nloc)) IN ScalarSumFrom(vars, nloc, k + 1, a)
-ScalarSum(vars, nloc) == ScalarSumFrom(vars, nloc, 1, RZero)
+RECURSIVE RSumFrom(_, _, _)
+RSumFrom(s, k, acc) == IF k > Len(s) THEN acc ELSE LET a == RAdd(acc, s[k]) IN RSumFrom(s, k + 1, a)
+BudgetSc(sc, nbase) == RMul(RHalf, RAdd(RInt(nbase), RSumFrom(sc, 1, RZero)))
+BudgetTight(vars, nloc, nbase) == BudgetSc(Scalars(vars, nloc), nbase)
 Contributing(vars, nloc) == Cardinality({k \in 1..Len(vars) : ~RIsZero(RegionScalar(vars[k][1], nloc))})
-BudgetTight(vars, nloc, nbase) == RMul(RHalf, RAdd(RInt(nbase), ScalarSum(vars, nloc)))
 BudgetCount(vars, nloc, nbase) == RMul(RHalf, RInt(nbase + Contributing(vars, nloc)))
 
 (* three-valued comparison |a - b| <= bud *)
@@ -93,6 +122,7 @@ Within(a, b, bud) ==
   IF RBad(a) \/ RBad(b) \/ RBad(bud) THEN "overflow"
   ELSE LET d == RSub(a, b) IN
        IF RBad(d) THEN "overflow" ELSE IF RLe(RAbs(d), bud) THEN "ok" ELSE "differs"
+Worst(vs) == IF "differs" \in vs THEN "differs" ELSE IF "overflow" \in vs THEN "overflow" ELSE "ok"
 
 (* ---- the contract, font level --------------------------------------------------------------- *)
 (* AxesCorrect: the new 'fvar' lists exactly the axes that are not pinned, in order, with the
@@ -103,17 +133,21 @@ AxesCorrect(lims, font2) ==
   /\ \A j \in 1..Len(k) : font2.axes[j] = lims[k[j]]
 (* Static: pinning every axis leaves no variation data at all *)
 Static(lims, font2) ==
-  AllPinned(lims) =>
-    /\ font2.axes = <<>> /\ font2.avar = <<>> /\ font2.fvs = <<>>
-    /\ \A i \in 1..Len(font2.items) : font2.items[i].vars = <<>>
+  AllPinned(lims) => (font2.axes = <<>> /\ font2.avar = <<>> /\ font2.fvs = <<>> /\ font2.vars = <<>>)
 (* Preserved at one user-space location of the new space: the SAME user coordinates are given
-   to both fonts ("coordinates keep their meaning"); nbase = 1 iff the item's default value is a
-   rounded stored quantity *)
-PreservedAt(font, lims, font2, i, uloc, nbase, extra) ==
-  LET u2 == ProjLoc(lims, uloc)
-      n2 == NormLoc(font2, u2)
-      bud == RAdd(BudgetTight(font2.items[i].vars, n2, nbase), extra)
-  IN Within(EvalItemN(font2.items[i], n2), EvalItem(font, i, uloc), bud)
+   to both fonts ("coordinates keep their meaning"); nbase = 1 iff the items' default values
+   are rounded stored quantities; the verdict is the worst over the items *)
+PreservedAt(font, lims, font2, uloc, nbase) ==
+  LET n2 == NormLoc(font2, ProjLoc(lims, uloc))
+      sc2 == Scalars(font2.vars, n2)
+      got == ValuesSc(font2, sc2)
+      want == Values(font, uloc)
+      bud == BudgetSc(sc2, nbase)
+  IN Worst({Within(got[i], want[i], bud) : i \in 1..Len(font.bases)})
+ExactAt(font, lims, font2, uloc) ==
+  LET got == Values(font2, ProjLoc(lims, uloc))
+      want == Values(font, uloc)
+  IN Worst({Within(got[i], want[i], RZero) : i \in 1..Len(font.bases)})
 FeatureVarsAt(font, lims, font2, uloc) == ActiveSub(font2, ProjLoc(lims, uloc)) = ActiveSub(font, uloc)
 
 (* ---- the contract, store level (normalised coordinates) ----------------------------------------
@@ -126,12 +160,15 @@ NKept(nlims) == SelectSeq(Idx(Len(nlims)), LAMBDA a : ~NPinned(nlims[a]))
 NInside(nlims, x) == \A a \in 1..Len(nlims) : RLe(nlims[a][1], x[a]) /\ RLe(x[a], nlims[a][3])
 RenormLoc(nlims, x) ==
   LET k == NKept(nlims) IN TLCEval([j \in 1..Len(k) |-> Renorm(nlims[k[j]], x[k[j]])])
-(* vars / nvars: delta sets of ONE item before / after; dflt: the default delta that the
-   instancer returns for that item; roundedVars = 1 iff the deltas of nvars were rounded *)
-StorePreservedAt(vars, nlims, dflt, nvars, x, nbase, roundedVars) ==
+(* vars / nvars: delta sets before / after (regions of nvars over the kept axes); dflt: the
+   default deltas the instancer returns; rounded = 1 iff the deltas of nvars were rounded.
+   Result: worst verdict over the n items *)
+StorePreservedAt(vars, nlims, dflt, nvars, x, n, rounded) ==
   LET x2 == RenormLoc(nlims, x)
-      bud == IF roundedVars = 1 THEN BudgetTight(nvars, x2, nbase) ELSE RMul(RHalf, RInt(nbase))
-  IN Within(RAdd(dflt, EvalDeltas(nvars, x2)), EvalDeltas(vars, x), bud)
+      sc == Scalars(vars, x)
+      sc2 == Scalars(nvars, x2)
+      bud == IF rounded = 1 THEN BudgetSc(sc2, 0) ELSE RZero
+  IN Worst({Within(ItemSumFrom(nvars, sc2, i, 1, dflt[i]), ItemSumFrom(vars, sc, i, 1, RZero), bud) : i \in 1..n})
 
 (* ---- operational instancing ---------------------------------------------------------------- *)
 (* AxisLimits.normalize: limits through 'fvar' normalisation and the axis' segment map, with the
@@ -142,9 +179,8 @@ NormLimit(ax, map, l) ==
 NormLimits(font, lims) == TLCEval([a \in 1..Len(lims) |-> NormLimit(font.axes[a], font.avar[a], lims[a])])
 NoAvar(n) == TLCEval([a \in 1..n |-> <<>>])
 
-(* changeTupleVariationAxisLimit: one delta set <<region, deltas>> (deltas: one per item sharing
-   the region) under the limit of axis a *)
-ScaleDeltas(ds, m) == TLCEval([j \in 1..Len(ds) |-> RMul(ds[j], m)])
+(* changeTupleVariationAxisLimit: one delta set <<region, deltas>> under the limit of axis a *)
+ScaleDeltas(ds, m) == IF m = ROne THEN ds ELSE TLCEval([j \in 1..Len(ds) |-> RMul(ds[j], m)])
 RebaseVar(v, a, nl) ==
   LET t == v[1][a] IN
   IF RIsZero(t[2]) THEN << <<[v[1] EXCEPT ![a] = NoTent], v[2]>> >>
@@ -182,8 +218,8 @@ InstantiateVarsExact(vars, nlims, nitems) ==
       kept == NKept(nlims)
   IN << IF Len(dfl) = 0 THEN ZeroDeltas(nitems) ELSE dfl[1][2],
         TLCEval([k \in 1..Len(rest) |-> <<ProjRegion(rest[k][1], kept), rest[k][2]>>]) >>
-RoundVars(vars) ==
-  TLCEval([k \in 1..Len(vars) |-> <<vars[k][1], TLCEval([j \in 1..Len(vars[k][2]) |-> RRound(vars[k][2][j])])>>])
+RoundSeq(ds) == TLCEval([j \in 1..Len(ds) |-> RRound(ds[j])])
+RoundVars(vars) == TLCEval([k \in 1..Len(vars) |-> <<vars[k][1], RoundSeq(vars[k][2])>>])
 (* every pinned axis has left every region (what "fully instanced" means for one delta set) *)
 NoPinnedAxisLeft(vars, nlims) ==
   \A k \in 1..Len(vars) : \A a \in 1..Len(nlims) : NPinned(nlims[a]) => RIsZero(vars[k][1][a][2])
@@ -247,22 +283,24 @@ InstantiateFvs(font, nlims) ==
       catchall == [box |-> TLCEval([j \in 1..Len(NKept(nlims)) |-> <<>>]), sub |-> font.defsub]
   IN [fvs |-> IF res.applied /\ Len(res.recs) > 0 /\ ~res.universal THEN Append(res.recs, catchall) ELSE res.recs,
       defsub |-> res.defsub]
+(* D-FV1 can fire only if some record is satisfied on all of the new space without keeping a
+   condition: all its conditions lie on pinned axes (or it has none) and are met there *)
+FvDeviation(fvs, nlims) ==
+  \E r \in 1..Len(fvs) : BoxMeets(fvs[r].box, nlims) /\ \A a \in CondAxes(fvs[r].box) : NPinned(nlims[a])
 
 (* the whole font; rounded = FALSE gives the exact (pre-rounding) instance *)
-ItemVars(item) == TLCEval([k \in 1..Len(item.vars) |-> <<item.vars[k][1], <<item.vars[k][2]>> >>])
-InstantiateItem(item, nlims, rounded) ==
-  LET r == InstantiateVarsExact(ItemVars(item), nlims, 1)
-      vs == IF rounded THEN RoundVars(r[2]) ELSE r[2]
-      b == RAdd(item.base, r[1][1])
-  IN [base |-> IF rounded THEN RRound(b) ELSE b,
-      vars |-> TLCEval([k \in 1..Len(vs) |-> <<vs[k][1], vs[k][2][1]>>])]
-Instantiate(font, lims, rounded) ==
+RoundFont(f) == [f EXCEPT !.bases = RoundSeq(f.bases), !.vars = RoundVars(f.vars)]
+InstantiateExact(font, lims) ==
   LET nlims == NormLimits(font, lims)
       pre == NormLimits([font EXCEPT !.avar = NoAvar(Len(font.axes))], lims)
       k == Kept(lims)
       fv == InstantiateFvs(font, nlims)
+      r == InstantiateVarsExact(font.vars, nlims, Len(font.bases))
   IN [axes |-> TLCEval([j \in 1..Len(k) |-> lims[k[j]]]),
       avar |-> TLCEval([j \in 1..Len(k) |-> InstantiateAvarMap(font.avar[k[j]], pre[k[j]], nlims[k[j]])]),
-      items |-> TLCEval([i \in 1..Len(font.items) |-> InstantiateItem(font.items[i], nlims, rounded)]),
+      bases |-> AddDeltas(font.bases, r[1]),
+      vars |-> r[2],
       fvs |-> fv.fvs, defsub |-> fv.defsub]
+Instantiate(font, lims, rounded) ==
+  IF rounded THEN RoundFont(InstantiateExact(font, lims)) ELSE InstantiateExact(font, lims)
 =============================================================================
